@@ -29,6 +29,13 @@
 (*     pixel reached through foreign pixels only                            *)
 (*   - nothing else is written                                              *)
 (* One verdict per line, naming the failing clause.                         *)
+(* The logs come from runs in the ordinary OpenMP configuration (one log    *)
+(* per requested thread) AND from child processes under limiting            *)
+(* environments (OMP_THREAD_LIMIT, OMP_DYNAMIC): there the number of logs   *)
+(* is the DELIVERED team; lo / hi are whatever the thread used.  That the   *)
+(* ranges of the threads that ran cover every pending pixel exactly once    *)
+(* (LocalMaxPar RangesTile over the delivered team) is judged by the        *)
+(* harness on the same logs (props/c13.py hook_collect).                    *)
 (***************************************************************************)
 EXTENDS Integers, Sequences, FiniteSets, TLC, Json, IOUtils
 
